@@ -173,7 +173,7 @@ func runC17(e *env) error {
 	if e.thorough {
 		nRuns = 500
 	}
-	faults := []string{"directive", "methoddirective", "signature", "conversion", "marker", "compile"}
+	faults := []string{"directive", "methoddirective", "signature", "conversion", "marker", "compile", "pkgconflict"}
 	var cases []*runCase
 	for i := 0; i < nRuns; i++ {
 		p := &proj.Project{Module: fmt.Sprintf("example.org/r%d", i)}
@@ -192,6 +192,9 @@ func runC17(e *env) error {
 			}
 			if r.Chance(45) || (i%4 != 0 && j == i%n) {
 				c.Fault = rng.Pick(r, faults)
+				if c.Fault == "pkgconflict" {
+					c.Vars = false
+				}
 			}
 			p.Convs = append(p.Convs, c)
 		}
@@ -210,6 +213,15 @@ func runC17(e *env) error {
 				c.Fault = ""
 				if j == len(p.Convs)-1 {
 					c.Fault, c.Vars = "conversion", false
+				}
+			}
+		}
+		if i%8 == 5 {
+			// pinned: the ONLY fault is a package conflict among three converters sharing one output file
+			for j, c := range p.Convs {
+				c.Fault = ""
+				if j == 0 {
+					c.Fault, c.Vars = "pkgconflict", false
 				}
 			}
 		}
